@@ -109,3 +109,11 @@ def _replay_meta(ctx, fl):
 
 REPLAYERS["frag-independence"] = _replay_meta
 REPLAYERS["callback-irrelevance"] = _replay_meta
+
+
+def _replay_conc_sessions(ctx, fl):
+    from units import conc
+    return conc.replay_conc_sessions(ctx, fl)
+
+
+REPLAYERS["conc-sessions"] = _replay_conc_sessions
